@@ -15,12 +15,25 @@ CFG = {
             "adds 2500,19999,20000,25000) x limits {absent,1,2,3,99,100,101,9999,10000,10001,2^32-1} x both orders "
             "while the scan stays below 1000 (thorough 3400) pages, quick thinned for the collections above 1000; "
             "plus 60/400 seeded random (size, limit, order). Keys: dense from 0/1, small random gaps, large keys "
-            "ending at u64::MAX, spread over the whole u64 range. Observed per page: item keys, token presence, "
+            "ending at u64::MAX, spread over the whole u64 range. names cases: a second endpoint over a "
+            "BTreeSet<String> (selector {order,last: name}); collections whose names put bytes yielding the base64 "
+            "sextets 62/63 (the characters on which the url-safe and standard alphabets differ) at every alignment "
+            "of the token's JSON: '>' '~' U+00FE U+00BE and '?' U+00FF U+00BF as third byte of a group, U+03C0 and "
+            "'o'+U+00E9 across second/third, 's'+U+4EAC and 'o'+U+1F980 across first/second, names differing only in "
+            "that character, behind 0/1/2 bytes of padding, at the start, at the end, runs of 1..4, 3 (thorough 16) "
+            "seeded random collections over that alphabet, and a 150-name collection; both orders; every limit "
+            "1..n+1, absent and 10001 (quick samples the limits of collections above 20 names); names are abstracted "
+            "to their rank in String order (the judge checks the order with str_ltb) and the model's codec writes the "
+            "same JSON, so tokens are compared byte for byte; the evidence counts the observed tokens containing "
+            "'-' or '_'. Observed per page: item keys, token presence, "
             "token bytes (all pages of scans up to 12 pages, else the first three and last two). Non-trivial: every "
             "scan; distinct by (order, keys, limit).",
     "exhaustive_note": "small scope is complete: all sizes 0..40 x all limits 1..42 (and absent) x both orders, "
                        "full scans over HTTP; larger sizes and limits are enumerated lists and seeded samples",
     "trusted_base": COMMON_TB + [
+        "names are abstracted to ranks in the judge: dropshot never inspects an item or a selector, it only "
+        "serialises it; the String order of the BTreeSet is checked in Coq (str_ltb); names are restricted to bytes "
+        "serde_json writes raw (no quote, backslash, control characters)",
         "serde_json (library): the envelope of the selector (order, last key). In the theorems: Section variables "
         "env_ser/env_de with the round-trip contract as explicit premises. In the judge: instantiated with a "
         "concrete printer/reader of {\"v\":\"v1\",\"page_start\":{\"order\":..,\"last\":N}} (Run_C15.v) so that the "
@@ -52,7 +65,8 @@ CFG = {
                 "closed assumptions. Correspondence: full scans over HTTP against a real server compared page by "
                 "page (items, token presence, token bytes) with the model's scan evaluated in Coq; small scope "
                 "exhaustive (sizes 0..40 x limits 1..42 x both orders), larger sizes/limits around 100 and 10000 "
-                "enumerated, seeded random beyond.",
+                "enumerated, seeded random beyond; string-keyed collections whose tokens use both url-safe-only "
+                "base64 characters at every byte alignment, every limit, both orders.",
         "design_ref": "DESIGN.md §6 C15",
         "note": "Coq kernel + vm_compute; hand-written model Pagination.v/PageToken.v tied to the code by this "
                 "run's correspondence; the handler's query over the collection is user code (modelled contract, "
